@@ -49,8 +49,8 @@ def _cases() -> List[dict]:
 
 def plan(tier: str) -> dict:
     return {
-        "runs": 4000 if tier == "quick" else 200000,
-        "budget": 70 if tier == "quick" else 900,
+        "runs": 16000 if tier == "quick" else 200000,
+        "budget": 150 if tier == "quick" else 900,
         "cases": _cases(),
         "chunk": 30,
         "rule": "Per limit: h11_max_incomplete_size {64,200,1000,16384} x head size {below, at, just above, far above} x "
